@@ -19,6 +19,7 @@ import (
 	"runtime"
 	"sort"
 	"strings"
+	"syscall"
 	"sync/atomic"
 	"testing"
 	"testing/synctest"
@@ -142,10 +143,69 @@ var lastDecision int64
 func StallProbe() string {
 	t := atomic.LoadInt64(&lastDecision)
 	if t == 0 || time.Since(time.Unix(0, t)) < 3*time.Second {
+		stallSeen = stallObs{}
 		return ""
 	}
-	buf := make([]byte, 8<<20)
-	dump := string(buf[:runtime.Stack(buf, true)])
+	// Two observations at least a second apart must agree: same decision time
+	// (the scheduler has not moved), the process has used no processor time in
+	// between (nothing is computing - a long stretch of one task between two
+	// scheduling points, a collection, a slow machine all show up here), and the
+	// goroutine dump names the same blocked sites.
+	now := time.Now()
+	cpu := processCPU()
+	if stallSeen.decision != t {
+		stallSeen = stallObs{decision: t, at: now, cpu: cpu}
+		return ""
+	}
+	if now.Sub(stallSeen.at) < time.Second {
+		return ""
+	}
+	busy := cpu - stallSeen.cpu
+	desc := ""
+	if busy < 20*time.Millisecond {
+		desc = blockedOutside()
+	}
+	prev := stallSeen.desc
+	// (the dump itself costs processor time: measure the next interval from here)
+	stallSeen = stallObs{decision: t, at: time.Now(), cpu: processCPU(), desc: desc}
+	if desc == "" || desc != prev {
+		return ""
+	}
+	return desc
+}
+
+type stallObs struct {
+	decision int64
+	at       time.Time
+	cpu      time.Duration
+	desc     string
+}
+
+var stallSeen stallObs // watchdog goroutine only
+
+func processCPU() time.Duration {
+	var ru syscall.Rusage
+	if err := syscall.Getrusage(syscall.RUSAGE_SELF, &ru); err != nil {
+		return 0
+	}
+	return time.Duration(ru.Utime.Nano() + ru.Stime.Nano())
+}
+
+// blockedOutside inspects a dump of all goroutines: "" unless every goroutine of
+// the bubble is blocked and at least one of them non-durably.
+func blockedOutside() string {
+	var dump string
+	for size := 8 << 20; ; size *= 4 {
+		buf := make([]byte, size)
+		n := runtime.Stack(buf, true)
+		if n < size {
+			dump = string(buf[:n])
+			break
+		}
+		if size >= 512<<20 {
+			return "" // cannot see every goroutine: no verdict
+		}
+	}
 	var where []string
 	for _, g := range strings.Split(dump, "\n\n") {
 		head, rest, _ := strings.Cut(g, "\n")
